@@ -517,7 +517,7 @@ def op_strategies():
         'shift': st.fixed_dictionaries({'i': IDX, 'n': st.integers(0, 8), 'dir': st.sampled_from(['l', 'r']), 'shifting': st.sampled_from(['expand', 'trunc', 'keep'])}),
         'bitwise': st.fixed_dictionaries({'i': IDX, 'j': IDX, 'name': st.sampled_from(['inv', 'and', 'or', 'xor']),
                                           'mask': st.one_of(st.none(), st.integers(-(1 << 20), 1 << 20))}),
-        'index': st.fixed_dictionaries({'i': IDX, 'a': IDX, 'b': IDX, 'slice': st.booleans()}),
+        'index': st.fixed_dictionaries({'i': IDX, 'a': IDX, 'b': IDX, 'slice': st.sampled_from([True, True, True, False])}),
         'view': st.fixed_dictionaries({'i': IDX, 'how': st.sampled_from(['T', 'copy', 'flatten'])}),
         'resize_inplace': st.fixed_dictionaries({'i': IDX, 'grow': st.sampled_from([0, 0, 0, 1, 2, 4, 8]), 'dfrac': st.sampled_from([0, 0, 0, 1, -1]),
                                                  'flip': st.booleans()}),
@@ -525,14 +525,15 @@ def op_strategies():
                                          'axis': st.one_of(st.none(), st.integers(0, 1)), 'numpy': st.booleans()}),
     }
     follow = st.lists(st.one_of(
-        st.fixed_dictionaries({'op': st.just('resize_inplace'), 'grow': st.sampled_from([0, 0, 1, 2, 4, 8]), 'dfrac': st.sampled_from([0, 0, 0, 1, -1]),
-                               'flip': st.booleans()}),
+        st.fixed_dictionaries({'op': st.just('resize_inplace'), 'grow': st.sampled_from([0, 1, 1, 2, 4, 8]), 'dfrac': st.sampled_from([0, 0, 0, 1, -1]),
+                               'flip': st.sampled_from([False, False, False, True])}),
         st.fixed_dictionaries({'op': st.just('write'), 'route': st.sampled_from(['call', 'set_val', 'setitem', 'setitem']), 'rel': REL, 'idx': IDX}),
         st.fixed_dictionaries({'op': st.just('shift'), 'n': st.integers(0, 4), 'dir': st.sampled_from(['l', 'r']), 'shifting': st.sampled_from(['trunc', 'keep'])})),
-        max_size=3)
+        min_size=0, max_size=3)
+    follow1 = follow.filter(lambda l: len(l) >= 1)
     for name in ('index', 'view', 'like', 'resize', 'construct', 'unary'):
         base = ops[name]
-        ops[name] = st.tuples(base, follow).map(lambda t: dict(t[0], then=t[1]))
+        ops[name] = st.tuples(base, follow1 if name in ('index', 'view') else follow).map(lambda t: dict(t[0], then=t[1]))
     ops['write#2'] = ops['write']
     ops['resize_inplace#2'] = ops['resize_inplace']
     ops['index#2'] = ops['index']
@@ -596,7 +597,7 @@ def task_hyp_saturate(ctx, n):
 
 
 def tasks(tier, scale=1.0):
-    n, steps = (120, 40) if tier == 'quick' else (1500, 60)
+    n, steps = (200, 40) if tier == 'quick' else (2000, 60)
     n = int(n * scale)
     out = [('machine-%d' % i, 'task_machine', {'n': n, 'steps': steps}) for i in range(14)]
     nh = int((2500 if tier == 'quick' else 40000) * scale)
